@@ -44,7 +44,8 @@ type base struct {
 	full, skip int64
 	maxStates  int
 	maxDepth   int
-	depthBound bool // maxDepth is a declared bound of the case (not a budget cap)
+	depthBound bool   // maxDepth is a declared bound of the case (not a budget cap)
+	param      string // constructor parameter combination of this search (parameter sweeps run many searches in one case)
 }
 
 func (b *base) opName(i int) string { return b.ops[i].name }
@@ -144,7 +145,11 @@ func runSearch[S any](t *vlib.T, b *base, sys vseq.System[S]) {
 	if viol != nil {
 		t.Count("untagged_violations", 1)
 		t.Count(fmt.Sprintf("untagged_in:%s (history length %d)", name, len(viol.History)), 1)
-		t.SubViolation(fmt.Sprintf(" history=%v", viol.History), "", map[string]any{"history": viol.History, "container": b.label, "variant": b.variant}, "%s: %s", name, viol.Msg)
+		pp := ""
+		if b.param != "" {
+			pp = " [" + b.param + "]"
+		}
+		t.SubViolation(fmt.Sprintf("%s history=%v", pp, viol.History), "", map[string]any{"history": viol.History, "container": b.label, "variant": b.variant, "parameters": b.param}, "%s%s: %s", name, pp, viol.Msg)
 	}
 	reportFindings(t, b, sys, name, viol != nil)
 }
